@@ -371,6 +371,15 @@ def _bucket_search(rep):
     return {'reproduced': False, 'cases_searched': c, 'class': 'bucket'}
 
 
+def _split_search(rep):
+    from harness import more_standins
+    c, f = more_standins.split_exhaustive('quick')
+    if f:
+        return {'reproduced': True, 'cases_searched': c, 'class': 'split', 'scenario': f[0]['scenario'], 'mismatches': f[0]['mismatches']}
+    return {'reproduced': False, 'cases_searched': c, 'class': 'split'}
+
+
+SEARCHES['split'] = SEARCHES['shard'] = _split_search
 for _k in ('random_choice', 'shuffle', 'ReShuffleDataset', 'LocalShuffleDataset', 'ApplyDataset', 'tile'):
     SEARCHES[_k] = _shuffle_search
 for _k in ('DynamicTimeSeriesBucket', 'DynamicBucket', 'DynamicBucketDataset'):
